@@ -582,15 +582,35 @@ lenp_op(int argc, char **argv)
             if (rc < 0) print_rc_strict(rc);
             else { printf("ok:0 prefix="); print_hex(lpc.prefix.data + lpc.prefix.offset, lpc.prefix.used - lpc.prefix.offset); }
         } else {
+            /* the same list once more with all chunks laid out back to back in ONE block (a frame put together in one
+             * piece of memory and merely described by a chunk list): what goes out must not depend on where the chunks lie */
+            size_t total = 0;
+            for (size_t i = 0; i < nc; i++) total += cb[i].size;
+            unsigned char *one = malloc(total ? total : 1);
+            ByteBuffer cb2[16];
+            size_t at = 0;
+            for (size_t i = 0; i < nc; i++) {
+                cb2[i] = cb[i];
+                cb2[i].data = one + at;
+                if (cb[i].size) memcpy(cb2[i].data, cb[i].data, cb[i].size);
+                at += cb[i].size;
+            }
+            ByteChunks chunks2 = { .chunks = nc, .active = chunks.active, .chunk = cb2 };
             struct ssnk kd = { .n = 0 };
             if (!parse_script(argv[5], &kd.sc)) { printf("bad-op"); return; }
             Sink snk; mk_sink(&snk, argv[4], &kd);
             ssize_t rc = flenp_chunks_to_sink(k, &snk, &chunks);
+            struct ssnk kd2 = { .n = 0 };
+            parse_script(argv[5], &kd2.sc);
+            Sink snk2; mk_sink(&snk2, argv[4], &kd2);
+            ssize_t rc2 = flenp_chunks_to_sink(k, &snk2, &chunks2);
+            bool same = rc == rc2 && kd.n == kd2.n && (kd.n == 0 || memcmp(kd.got, kd2.got, kd.n) == 0);
             for (int view = 0; view < 2; view++) {
                 if (view) printf(" ## ");
                 print_rc_strict(rc); printf(" got="); print_hex(kd.got, kd.n);
+                if (!same) { printf(" back-to-back:"); print_rc_strict(rc2); printf(" got="); print_hex(kd2.got, kd2.n); }
             }
-            free(kd.got);
+            free(kd.got); free(kd2.got); free(one);
         }
         for (size_t i = 0; i < nc; i++) free(cb[i].data);
     } else if (strcmp(op, "lenp.mem2sink") == 0 && argc == 5) {
